@@ -40,8 +40,9 @@ def check(ctx) -> None:
         'object; the copy inserted by COPY derives from a content-bearing '
         'read of the source.')
     ctx.not_decided = ('byte equality for all inputs; the arithmetic of the '
-                       'line index; octet counts in BODYSTRUCTURE vs '
-                       'BODY[part] for all MIME shapes.')
+                       'line index; the octet counts in BODYSTRUCTURE for '
+                       'all MIME shapes (R3.8 decides which object they are '
+                       'the length of).')
     r31(ctx)
     r32(ctx)
     r33(ctx)
@@ -49,6 +50,7 @@ def check(ctx) -> None:
     r35(ctx)
     r36(ctx)
     r37(ctx)
+    r38(ctx)
 
 
 def _transform_calls(f, tainted: set[str]):
@@ -555,3 +557,68 @@ def r37(ctx) -> None:
         R.check(ok, cp, a, 'maildir copy: inserted message derives from '
                 'get_message() / the file',
                 f'{why}: COPY creates an EMPTY message in the destination')
+
+
+def r38(ctx) -> None:
+    R = ctx.rule('R3.8', 'BODYSTRUCTURE octet counts are the length of what '
+                 'BODY[part] returns', 3)
+    f = ctx.proj.func(MSG, 'BaseLoadedMessage._get_body_structure')
+    if 'msg' not in f.params():
+        raise AnchorError('_get_body_structure(cls, msg) signature changed')
+    # what BODY[n] hands out for a part: get_body (non-binary, with section)
+    gb = ctx.proj.func(MSG, 'BaseLoadedMessage.get_body')
+    gcfg = cfg_of(gb)
+    part_obj = set()
+    for r in gcfg.find(lambda n: isinstance(n.stmt, ast.Return)):
+        for t in gcfg.nodes:
+            if t.kind == 'test' and guard_atoms(t.stmt.test) == \
+                    [('section', False)] and gcfg.controlled_by(r, t, 'f'):
+                part_obj.add(txt(r.stmt.value))
+    part_obj.discard('decoded')
+    if part_obj != {'msg.body'}:
+        raise AnchorError(f'get_body returns {part_obj} for a part')
+    helper = ctx.proj.func(MSG, 'BaseLoadedMessage._get_size_with_lines')
+    hret = [txt(r.value) for r in walk_local(helper.node)
+            if isinstance(r, ast.Return)] if helper else []
+    n = 0
+    for c in calls_in(f.node):
+        nm = call_name(c)
+        if nm not in ('TextBodyStructure', 'ContentBodyStructure',
+                      'MessageBodyStructure'):
+            continue
+        n += 1
+        sizes = [a for a in c.args if isinstance(a, ast.Name)
+                 and a.id == 'size']
+        measured = set()
+        srcs = []
+        for a in sizes:
+            for st, v in local_assigns(f, a.id):
+                v = v if v is not None else getattr(st, 'value', None)
+                srcs.append(txt(v))
+                if isinstance(v, ast.Call) and call_name(v) == 'len' and \
+                        v.args:
+                    measured.add(txt(v.args[0]))
+                elif isinstance(v, ast.Call) and call_name(v) == \
+                        '_get_size_with_lines' and v.args and helper:
+                    hp = [p_ for p_ in helper.params() if p_ != 'cls']
+                    for r in walk_local(helper.node):
+                        if isinstance(r, ast.Return) and isinstance(
+                                r.value, ast.Tuple) and isinstance(
+                                r.value.elts[0], ast.Call) and call_name(
+                                r.value.elts[0]) == 'len':
+                            inner = txt(r.value.elts[0].args[0])
+                            if hp and inner.split('.')[0] == hp[0]:
+                                inner = txt(v.args[0]) + inner[len(hp[0]):]
+                            measured.add(inner)
+        R.check(bool(measured) and measured <= {'msg.body'}, f, c,
+                f'_get_body_structure: {nm} size = len(msg.body)',
+                f'the octet count given to {nm} is the length of '
+                f'{sorted(measured) or srcs} — the whole part, MIME header '
+                f'included — while BODY[n] returns msg.body: for a part '
+                f'"Content-Type: text/plain\\r\\n\\r\\nhello\\r\\n" '
+                f'BODYSTRUCTURE announces 35 octets and BODY[1] returns 7 '
+                f'(RFC 3501 7.4.2: the size of the body in its transfer '
+                f'encoding); the line count has the same origin')
+    if n < 3:
+        raise AnchorError(f'only {n} single-part structure constructors '
+                          f'found in _get_body_structure')
